@@ -47,7 +47,7 @@ func (c Color) asIndex() Color {
 		// weighted, thanks stackoverflow. We skip the sqrt
 		// because we don't care about the absolute value of the
 		// distance, only the comparisons
-		trial := sq(float64(dR-oR)*.3) + sq(float64(dG-oG)*.59) + sq(float64(dB-oB)*.11)
+		trial := sq((float64(dR)-float64(oR))*.3) + sq((float64(dG)-float64(oG))*.59) + sq((float64(dB)-float64(oB))*.11)
 		if trial < dist {
 			match = i
 			dist = trial
